@@ -225,6 +225,17 @@ def run_case(case):
         res.violate(("same_process", comp), "two executions in one interpreter differ: " + d)
     f = a[0]
     uses_random = any(n.get(k) == "RANDOM" for n in case["nodes"] for k in ("in_sel", "out_sel"))
+    late = []
+    if uses_random and not d:
+        # the other legitimate order of a user's script: build the model, then random.seed(s), then run - twice, with the
+        # global generator in two different states while the model is being built
+        c1 = execute(dict(case, late_seed=1))
+        c2 = execute(dict(case, late_seed=2))
+        d2, comp2 = first_diff(c1, c2)
+        if d2:
+            res.violate(("same_process", comp2, "seed_set_after_build"),
+                        "two executions with the seed set after the model was built differ: " + d2)
+        late = ["late_seed"]
     ties = False
     last = None
     for e in f.ledger:
@@ -235,7 +246,7 @@ def run_case(case):
             last = (e.t, e.edge)
     res.nontrivial = bool(uses_random or ties)
     res.info["digest"] = hashlib.sha1(json.dumps([a[1], a[2], a[3]], sort_keys=True).encode()).hexdigest()
-    res.classes = ["random" if uses_random else "no_random", "crash" if a[3] else "ok"] + sorted(set("edge:" + e["kind"] for e in case["edges"]))
+    res.classes = ["random" if uses_random else "no_random", "crash" if a[3] else "ok"] + late + sorted(set("edge:" + e["kind"] for e in case["edges"]))
     return res
 
 
